@@ -8,8 +8,9 @@ C15 driver.
       → `P` | `ok <bonds> <vars> <offset generic> <offset ising> <cutoff> <state> <slots> <flags> <non_const_diags> <ising table> <ops ok>`
         bonds = `const:constdiag:at-table` joined by `!` (table: ins major, outs minor), vars joined by `.`/`!`,
         flags = has_cluster_edges, breaks_ising_symmetry, should_do_cluster_update, loops, heatbath
-  lockstep[-h|-opts] <edges> <Γ> <h> <nvars> <cutoff> <β> <seed> <kpre> <kpost> <rvb> <hb> <observed>
+  lockstep[-h|-opts|-hb|-g0] <edges> <Γ> <h> <nvars> <cutoff> <β> <seed> <kpre> <kpost> <rvb> <hb> <observed>
       → `<observation allowed by the trajectory theorem 0|1> <cluster gate> <energy difference>`
+        (hb: 0 = Metropolis on both, 1 = heat-bath on the Ising sampler only, 2 = on both)
   diagstep <edges> <Γ> <h> <nvars> <cutoff> <β> <seed> <kpre> <kpost> <observed>
       → `<observation allowed 0|1>` (diagonal sweeps only: must be `same` for every h)
 edges = `a,b:J!a,b:J…`
@@ -73,11 +74,14 @@ def step (toks : List String) : String :=
     if !kind.startsWith "lockstep" then "bad-op" else
     let g : IsingSampler :=
       { model := mkModel edges gam h nv, state := [], cutoff := parseNat cutoff, slots := [],
-        runRvb := rvb == "1", heatbath := hb == "1" }
+        runRvb := rvb == "1", heatbath := hb != "0" }
     match intoQmc g with
     | .ok q =>
+      -- hb = 2: `set_do_heatbath(true)` was called on the converted sampler by hand
+      let q := if hb == "2" then q.setDoHeatbath true else q
       let gate := q.shouldDoClusterUpdate
-      let applies := gate && !g.runRvb && !g.heatbath
+      -- `convert_trajectory_partial` (both Metropolis) / `convert_trajectory_heatbath_partial` (both heat-bath)
+      let applies := gate && !g.runRvb && (q.doHeatbath == g.heatbath)
       let allowed := !applies || observed == "same"
       let ediff := if observed == "same" then showApprox (g.energy 1 1 - q.energy 1 1) else "~0"
       s!"{showBool allowed} {showBool gate} {ediff}"
